@@ -135,3 +135,52 @@ fn c08_k1_seq_release() {
     kani::cover!(is_fake_k, "released");
     kani::cover!(matches!(s, NormalKey { keycode, .. } if keycode == k), "physical key with the same code survives");
 }
+
+// @harness name=c08_k1_seq_custom prop=C08 tier=quick timeout=1800
+// @encodes Layout::process_sequence_custom, CustomEvent::update
+// @inst Layout<3, 2, u8>
+// @bounds states [plain key, macro custom item in symbolic phase (pending / active)]; the custom event already produced this tick is symbolic (none / press / release of another custom action)
+// @assumes none beyond the bounds
+// @spec a macro's custom (e.g. unicode) item is delivered as exactly one press then one release on later ticks and is NEVER lost: if another custom event already occupies this tick the item does not advance (it waits for a free tick); otherwise pending -> press + active, active -> release + done
+#[kani::proof]
+#[kani::unwind(5)]
+fn c08_k1_seq_custom() {
+    let mut l: Layout<'static, 3, 2, u8> = vk_layout_literal(&VK_SRC, &VK_LAYERS);
+    let _ = l.states.push(NormalKey { keycode: KeyCode::C, coord: (0, 1), flags: NormalKeyFlags(0) });
+    let active_phase: bool = kani::any();
+    if active_phase {
+        let _ = l.states.push(SeqCustomActive(&VK_CUSTOM_VALS[0]));
+    } else {
+        let _ = l.states.push(SeqCustomPending(&VK_CUSTOM_VALS[0]));
+    }
+    let prior: u8 = kani::any();
+    kani::assume(prior < 3);
+    let cur: CustomEvent<'static, u8> = match prior {
+        0 => CustomEvent::NoEvent,
+        1 => CustomEvent::Press(&VK_CUSTOM_VALS[1]),
+        _ => CustomEvent::Release(&VK_CUSTOM_VALS[1]),
+    };
+    let out = l.process_sequence_custom(cur);
+    assert!(l.states.len() == 2);
+    if prior != 0 {
+        // the tick is taken: the other event goes out unchanged and the macro item must not advance
+        match (prior, out) {
+            (1, CustomEvent::Press(v)) | (2, CustomEvent::Release(v)) => assert!(*v == VK_CUSTOM_VALS[1]),
+            _ => assert!(false, "the other custom event must not be replaced"),
+        }
+        if active_phase {
+            assert!(matches!(l.states[1], SeqCustomActive(_)), "the item waits for a free tick");
+        } else {
+            assert!(matches!(l.states[1], SeqCustomPending(_)), "the item waits for a free tick");
+        }
+    } else if active_phase {
+        assert!(matches!(out, CustomEvent::Release(v) if *v == VK_CUSTOM_VALS[0]));
+        assert!(matches!(l.states[1], Tombstone));
+    } else {
+        assert!(matches!(out, CustomEvent::Press(v) if *v == VK_CUSTOM_VALS[0]));
+        assert!(matches!(l.states[1], SeqCustomActive(_)));
+    }
+    kani::cover!(prior == 1 && !active_phase, "pending item while another press is reported");
+    kani::cover!(prior == 0 && active_phase, "release of the item");
+    core::mem::forget(l);
+}
